@@ -233,6 +233,17 @@ impl Space for Calculus {
         let want: Vec<f64> = s.iter().map(|x| -x).collect();
         meas("conjugacy Df*(-g(s))=-s", relerr(&back, &want), 1e-6 / rs.min(1.0), ctx)?;
         meas("<s,g(s)>=-nu", (dot(&s, &g) + degree(k)).abs() / degree(k), 1e-7 / rs.min(1.0), ctx)?;
+        // ---- primal barrier value f(s) = -f*(-g(s)) - nu, asked of an object that has just evaluated the
+        // barrier at another primal point (scratch buffers must not leak from one evaluation into the next)
+        {
+            let so = nonsym_point(k, false, (id / 3 + 5) % NPTS);
+            if margin_primal(&cs, &so) > 0.0 {
+                let _ = any.view().v_barrier_primal(&so);
+            }
+            let got = any.view().v_barrier_primal(&s);
+            let want = -fstar::<f64>(k, &minus_g) - degree(k);
+            meas("barrier_primal-value", (got - want).abs() / want.abs().max(1.0), 1e-6 / rs.min(1.0), ctx)?;
+        }
         // ---- scalings
         let ok = any.cone().update_scaling(&s, &z, mu, ScalingStrategy::Dual);
         ensure!(ok, "update_scaling-fails-on-interior-point", "");
